@@ -36,7 +36,7 @@ if not names:
     txt = open(hf).read()
     names = re.findall(r'#\[kani::proof[^\]]*\]\s*(?:#\[[^\]]*\]\s*)*pub fn (\w+)', txt)
 with kmirror.MirrorLock():
-    rep = kmirror.build_mirror()
+    rep = kmirror.build_mirror(only_crate=crate)
     ok, out = kmirror.codegen(crate, feats)
     if not ok:
         print('COMPILE FAILED')
